@@ -246,6 +246,33 @@ func genC16Case(r *rand.Rand, idx int64) *c16Case {
 			i++
 		}
 	}
+	// look-alikes in ONE request: different relationships whose printed forms
+	// coincide - the subject id "ns:obj#rel" next to the subject set ns:obj#rel, and
+	// the object "a#b" with relation "c" next to the object "a" with relation "b#c"
+	if idx%4 == 2 && c.Mode != "page-edge" && c.Mode != "distinct" {
+		var twins []*Tup
+		for _, t := range c.tuples {
+			if len(twins) >= 4 {
+				break
+			}
+			if t.SubjectSet != nil && len(t.SubjectSet.Object) < 200 && utf8.ValidString(t.SubjectSet.Object) {
+				tw := cloneTup(t)
+				tw.SubjectSet = nil
+				tw.SubjectID = sp(t.SubjectSet.Namespace + ":" + t.SubjectSet.Object + "#" + t.SubjectSet.Relation)
+				if t.SubjectSet.Relation == "" {
+					tw.SubjectID = sp(t.SubjectSet.Namespace + ":" + t.SubjectSet.Object)
+				}
+				twins = append(twins, tw)
+			} else if t.SubjectID != nil && len(t.Object) < 200 && t.Relation != "" {
+				tw := cloneTup(t)
+				tw.Object, tw.Relation = t.Object+"#"+t.Relation, "c"
+				t2 := cloneTup(t)
+				t2.Relation = t.Relation + "#c"
+				twins = append(twins, tw, t2)
+			}
+		}
+		c.tuples = append(c.tuples, twins...)
+	}
 	if len(c.tuples) > 350 {
 		c.tuples = c.tuples[:350]
 	}
